@@ -631,12 +631,6 @@ def r_sib_r_c01_11(ctx):
     count_reaches_loop(ctx)
 
 
-@rule("R-C01-12", min_instances=5, title="a frame's bytes depend on that frame alone: nothing on the format/send path is kept in class-level or module-level mutable state (no header cache shared between frames)")
-def r_sib_r_c01_12(ctx):
-    from .c12 import r9 as no_hidden_sharing
-    no_hidden_sharing(ctx)
-
-
 def _ref_frame(fin, rsv1, rsv2, rsv3, opcode, masked, key, data: bytes) -> bytes:
     """RFC 6455 5.2, written independently of the code under analysis"""
     import struct as _s
